@@ -48,12 +48,12 @@ func sound(got, want string) bool { return got == "miss" || (want != "" && got =
 
 type c08 struct {
 	name, doc string
-	chain     []blk          // committed sequentially before the threads start
-	commits   []blk          // each committed by its own thread
-	reads     [][2]string    // (key, block) looked up by one thread each through StateCache.Get
-	bcReads   []blk          // lookups of key "k" through an uncommitted BlockCache with this (hash, prev)
+	chain     []blk             // committed sequentially before the threads start
+	commits   []blk             // each committed by its own thread
+	reads     [][2]string       // (key, block) looked up by one thread each through StateCache.Get
+	bcReads   []blk             // lookups of key "k" through an uncommitted BlockCache with this (hash, prev)
 	truth     map[string]string // "key@block" -> value determined by the block tree ("" = removed / never written)
-	mustHit   []string       // "key@block" that must hit after all commits returned
+	mustHit   []string          // "key@block" that must hit after all commits returned
 }
 
 func (c c08) scenario() sched.Scenario {
